@@ -283,8 +283,10 @@ def write_replay(prop_id, sub_name, case, out, directory=None):
     os.makedirs(directory, exist_ok=True)
     path = os.path.join(directory, '%s_%s.json' % (sub_name, case_hash(case)))
     with open(path, 'w') as f:
-        json.dump({'property': prop_id, 'sub': sub_name, 'kind': out.kind,
-                   'detail': out.detail, 'case': case}, f, indent=1, sort_keys=True)
+        rec = {'property': prop_id, 'sub': sub_name, 'kind': out.kind, 'detail': out.detail, 'case': case}
+        if sys.flags.optimize:
+            rec['python_flags'] = ['-O']        # found by the optimized-interpreter pass: replay re-executes itself with -O
+        json.dump(rec, f, indent=1, sort_keys=True)
     return path
 
 
